@@ -50,6 +50,15 @@ pub fn run(ctx: &mut Ctx) {
                 .map(|s| if r.chance(1, 6) { format!("~example.com##{}", s) } else { format!("##{}", s) })
                 .collect();
             // non-generic rules must not leak into the generic stores
+            // rules with an action are never generic hide rules, whatever their locations
+            for k in 0..r.below(3) {
+                let loc = r.ps(&["~example.com", "~example.com,~shop.*", "", "~video.*"]);
+                let act = r.ps(&[":style(color: red)", ":remove()", ":remove-class(locked)", ":remove-attr(data-x)"]);
+                let sel = r.ps(&[".act", "#act", ".act > .inner"]);
+                if !loc.is_empty() {
+                    lines.push(format!("{}##{}{}{}", loc, sel, k, act));
+                }
+            }
             lines.push("example.org##.site-only".into());
             lines.push("example.org#@#.ad".into());
             let e = build(&lines, r.chance(1, 2), r.chance(1, 2), 0);
@@ -68,8 +77,8 @@ pub fn run(ctx: &mut Ctx) {
                 }
             }
             let mut sigs: Vec<(String, serde_json::Value)> = vec![];
-            let all_classes: Vec<String> = classes.iter().cloned().chain(["site-only".to_string(), "nope".to_string()]).collect();
-            let all_ids: Vec<String> = ids.iter().cloned().chain(["nope".to_string()]).collect();
+            let all_classes: Vec<String> = classes.iter().cloned().chain(["site-only".to_string(), "nope".to_string(), "act0".to_string(), "act1".to_string(), "act".to_string()]).collect();
+            let all_ids: Vec<String> = ids.iter().cloned().chain(["nope".to_string(), "act0".to_string(), "act1".to_string()]).collect();
             let no_exc: HashSet<String> = HashSet::new();
             let looked_all: Vec<String> = e.hidden_class_id_selectors(&all_classes, &all_ids, &no_exc);
             let looked: BTreeSet<String> = looked_all.iter().cloned().collect();
